@@ -237,7 +237,10 @@ impl SecretKeyParamsBuilder {
             }
         }
 
-        if self.version == Some(types::KeyVersion::V4) && self.primary_user_id.is_none() {
+        // an unset version means the default, which is v4
+        if self.version.unwrap_or_default() == types::KeyVersion::V4
+            && self.primary_user_id.is_none()
+        {
             return Err("V4 keys must have a primary User ID".into());
         }
 
